@@ -667,9 +667,11 @@ Section Evaluator.
       if Nat.leb len i then ret tt
       else
         let* h := get_heap in
-        let item := match nth_error (get_back h bid) (off + i) with
-                    | Some c => load h c | None => VNil None end in
+        (* the element's CELL is taken now; its value is read after the index variable has
+           been stored (they can be the same cell, through a match binding) *)
+        let itemc := nth_error (get_back h bid) (off + i) in
         (match ixlocal with Some a => m_store a (num_of_nat i) | None => ret tt end) ;;;
+        let* item := match itemc with Some c => m_load c | None => ret (VNil None) end in
         m_store local item ;;;
         let* go := eval_body f body in
         if go then eval_forin_arr f local ixlocal bid off len (S i) body else ret tt
